@@ -13,6 +13,20 @@ DOCUMENTED_ERRORS = {'OneOfDoesNotHaveResultError', 'RecurrentSubgraphDoesNotHav
                      'SwitchCaseDoesNotHaveBranchError'}
 
 
+def known_instance(findings, flags, probs):
+    """The finding (or None) that all of `probs` are an instance of: its trigger predicate holds for the program and every
+    problem is of a kind the finding lists and none of a kind it excludes."""
+    import re
+    for f in findings:
+        if not flags.get(f['trigger']):
+            continue
+        if any(re.search(nk, p) for nk in f.get('not_kinds', []) for p in probs):
+            continue
+        if all(any(re.search(k, p) for k in f['kinds']) for p in probs):
+            return f
+    return None
+
+
 def reference(model, spec):
     """Evaluate the reference semantics; returns dict(result, log, flags) with real names."""
     it = M.Interner()
